@@ -422,6 +422,36 @@ func (c *Ctx) snapshotInputs(m map[string]uint64) []InputRec {
 			r[i].Val = m[r[i].Name]
 		}
 	}
+	// the solver's interpretation of every uninterpreted function at the argument
+	// values of this model, so that the concrete replay computes with the same function
+	if m != nil && c.S != nil {
+		memo := map[*smt.Term]uint64{}
+		seen := map[string]bool{}
+		for _, t := range c.S.UFNodes() {
+			v, ok := smt.Eval(t, m, memo)
+			if !ok {
+				continue
+			}
+			args := make([]*smt.Term, len(t.Args))
+			good := true
+			for i, a := range t.Args {
+				av, ok := smt.Eval(a, m, memo)
+				if !ok {
+					good = false
+					break
+				}
+				args[i] = &smt.Term{Op: smt.OConst, S: a.S, Val: av}
+			}
+			if !good {
+				continue
+			}
+			k := smt.UFModelKey(smt.UF(t.Name, t.S, args...))
+			if !seen[k] {
+				seen[k] = true
+				r = append(r, InputRec{Name: k, Kind: "uf", Bits: t.S.W, Val: v})
+			}
+		}
+	}
 	return r
 }
 
